@@ -1,5 +1,6 @@
 import Model.Proto
 import Model.PCQueue
+import Model.Chain
 /-! Driver for stream `schedules` (C17).
 
 Ops (one per line):
@@ -14,6 +15,7 @@ Ops (one per line):
   `end <count> complete|truncated`.
 -/
 open KV KV.Proto KV.PCQueue
+open KV.Chain (Pool Chain Item WPC SPC MPC)
 
 def parseList (s : String) (sep : String) : List String :=
   if s == "-" then [] else (s.splitOn sep).filter (· ≠ "")
@@ -106,6 +108,74 @@ partial def dfs (por : Bool) (s : State) (sleep : List Nat) (path : List Nat) (s
             go rest (if por then t :: sleep else sleep) st
     go en sleep st
 
+
+/-! ### generic machinery for the operation-level models (ThreadPool, Chain) -/
+structure Sys (σ : Type) where
+  step : σ → Nat → Option σ
+  enabled : σ → List Nat
+  pcChar : σ → Nat → String
+  done : σ → Bool
+  final : σ → String
+  fuel : σ → Nat
+
+def runTraceG {σ : Type} (sys : Sys σ) (s0 : σ) (sched : List Nat) : String := Id.run do
+  let mut s := s0
+  let mut out : Array String := #["I/" ++ joinNats (sys.enabled s)]
+  for t in sched do
+    match sys.step s t with
+    | some s' => out := out.push (toString t ++ sys.pcChar s' t ++ "/" ++ joinNats (sys.enabled s')); s := s'
+    | none => out := out.push ("x" ++ toString t)
+  let mut fuel := sys.fuel s + 1
+  while fuel > 0 do
+    fuel := fuel - 1
+    match sys.enabled s with
+    | [] => fuel := 0
+    | t :: _ =>
+      match sys.step s t with
+      | some s' => out := out.push (toString t ++ sys.pcChar s' t ++ "/" ++ joinNats (sys.enabled s')); s := s'
+      | none => fuel := 0
+  let status := if sys.done s then "ok" else "deadlock"
+  out := out.push ("END " ++ status ++ " F " ++ sys.final s)
+  return " ".intercalate out.toList
+
+partial def dfsG {σ : Type} (sys : Sys σ) (s : σ) (path : List Nat) (st : EnumSt) : EnumSt :=
+  if st.truncated then st else
+  let en := sys.enabled s
+  if en.isEmpty then
+    if st.count ≥ st.limit then { st with truncated := true }
+    else { st with count := st.count + 1, out := st.out.push (joinNats path.reverse) }
+  else
+    en.foldl (fun st t => match sys.step s t with
+      | some s' => dfsG sys s' (t :: path) st
+      | none => st) st
+
+def poolSys : Sys Pool where
+  step := Pool.step
+  enabled := Pool.enabledSet
+  pcChar := fun p t =>
+    match t with
+    | 0 => if !p.todo.isEmpty then "w" else if p.joined < p.wpc.length then "j" else "d"
+    | i + 1 => match p.wpc[i]? with
+      | some .notStarted => "s" | some .running => "w" | some .finished => "d" | none => "?"
+  done := Pool.allDone
+  final := fun p => ";".intercalate ((List.range p.wpc.length).map fun i =>
+    toString (i + 1) ++ ":" ++ joinNats (p.handled.getD i []))
+  fuel := Pool.measure
+
+def chainSys : Sys Chain where
+  step := Chain.step
+  enabled := Chain.enabledSet
+  pcChar := fun c t =>
+    match t with
+    | 0 => match c.main with
+      | .fill _ => "w" | .join _ => "j" | .drain _ => "w" | .aborted => "A" | .finished => "d"
+    | i + 1 => match c.spc[i]? with
+      | some .start => "s" | some .consume => "w" | some (.produce _ _) => "w" | some .finished => "d" | none => "?"
+  done := Chain.allDone
+  final := fun c => ";".intercalate (((List.range c.spc.length).filter fun i => 0 < i && i + 1 < c.spc.length).map fun i =>
+    toString (i + 1) ++ ":" ++ joinNats (c.seen.getD i []))
+  fuel := fun c => 4 * (c.data.length + c.b + 2) * (c.spc.length + 2) + 10
+
 def parseInit (cap prods quotas : String) : Option State :=
   match cap.toNat? with
   | none => none
@@ -126,6 +196,28 @@ def handle (line : String) : IO Unit := do
       for l in st.out do IO.println l
       IO.println s!"end {st.count} {if st.truncated then "truncated" else "complete"}"
     | _, _ => IO.println "bad-op"
+  | ["pool", cap, workers, reqs, sched] =>
+    match cap.toNat?, workers.toNat? with
+    | some c, some w => IO.println (runTraceG poolSys (Pool.init c w (parseNats reqs)) (parseNats sched))
+    | _, _ => IO.println "bad-op"
+  | ["chain", b, m, data, sched] =>
+    match b.toNat?, m.toNat? with
+    | some b, some m => IO.println (runTraceG chainSys (Chain.init b m (parseNats data)) (parseNats sched))
+    | _, _ => IO.println "bad-op"
+  | ["enumpool", cap, workers, reqs, limit] =>
+    match cap.toNat?, workers.toNat?, limit.toNat? with
+    | some c, some w, some lim =>
+      let st := dfsG poolSys (Pool.init c w (parseNats reqs)) [] { limit := lim }
+      for l in st.out do IO.println l
+      IO.println s!"end {st.count} {if st.truncated then "truncated" else "complete"}"
+    | _, _, _ => IO.println "bad-op"
+  | ["enumchain", b, m, data, limit] =>
+    match b.toNat?, m.toNat?, limit.toNat? with
+    | some b, some m, some lim =>
+      let st := dfsG chainSys (Chain.init b m (parseNats data)) [] { limit := lim }
+      for l in st.out do IO.println l
+      IO.println s!"end {st.count} {if st.truncated then "truncated" else "complete"}"
+    | _, _, _ => IO.println "bad-op"
   | _ => IO.println "bad-op"
 
 partial def mainLoop (h : IO.FS.Stream) : IO Unit := do
